@@ -163,11 +163,21 @@ CLAIMED = {
              "(path models and, for writes that cancel over the reals, a few seeded float64 inputs - labelled sampling in the "
              "evidence); freud is stubbed in the symbolic run; CSV text precision outside the claim.",
         ref="DESIGN.md C18"),
+    "C20": dict(
+        text="PARTIAL. Bounded symbolic model checking of the Python side of the Voronoi wrappers with the compiled tessellation "
+             "replaced by an arbitrary one (fresh positive volumes per call, inputs recorded): convert_configuration centres every "
+             "frame on its own box for any origin and pads z=0 in 2D; VolumeMatrix uses the requested frame, displaces exactly one "
+             "coordinate of one particle by +-deltar about the centred position and restores it, forms central differences, the "
+             "self term from translation invariance (every row sums to zero over each displaced coordinate) and normalises by the "
+             "unperturbed volume.",
+        note="NOT claimed: everything the property says about the tessellation itself (listing, symmetric neighbour relation, "
+             "positive equal weights, volumes summing to the box) - it is computed inside the compiled freud extension, where "
+             "symbolic execution stops - and the %d/%.6f text format of cal_neighbors' files (no real-valued branching; left to "
+             "the repository's tests). N<=4 (5 thorough), F<=2 (3), transform_matrix=False.",
+        ref="DESIGN.md C20"),
 }
 
 NOT_APPLICABLE = {
-    "C20": "Voronoi tessellation is computed inside the compiled freud extension; symbolic execution stops at that boundary "
-           "and a nondeterministic stub would remove exactly what the property is about (DESIGN.md C20).",
 }
 
 PENDING_REASON = "check not built yet in this round (planned, see DESIGN.md section 2); no claim is made until it is registered"
